@@ -12,6 +12,8 @@ client mutation, both through the public API) back to abstract rows.
 Python only concretises, drives and projects; every verdict is TLC's
 (spec/QualRepoTrace.tla).
 """
+import copy
+
 import pywbem
 import pywbem_mock
 from pywbem import (CIMQualifierDeclaration, CIMQualifier, CIMClass,
@@ -221,10 +223,10 @@ class Driver:
                     try:
                         qd = conn.GetQualifier(self.qname(q),
                                                namespace=_case(self.rng, nsname))
-                    except CIMError as exc:
-                        if exc.status_code == pywbem.CIM_ERR_NOT_FOUND:
-                            continue
-                        raise
+                    except CIMError:
+                        # not retrievable; which status code a missing name
+                        # gets is judged on the Get events, not here
+                        continue
                     gets.append(dict(
                         ns=n, q=q if qid_of(qd.name) == q else -1,
                         d=tok_of(qd)))
@@ -321,6 +323,11 @@ class Driver:
             elif op == "AddObj":
                 objs = [make_decl(self.rng, self.qname(i["q"]), i["d"])
                         for i in c["items"]]
+                if c["arg"] != "ok":
+                    # an object that is no CIM class / instance / qualifier
+                    # declaration, after the valid ones
+                    objs.append(self.rng.choice(
+                        ["QAlpha", 42, CIMQualifier("QAlpha", "x"), 1.5]))
                 arg = objs[0] if len(objs) == 1 and self.rng.random() < 0.5 \
                     else objs
                 ns = self.ns_plain(c["ns"])
@@ -378,7 +385,7 @@ class Driver:
                         pass
             ev["mdump"] = self.dump()
         else:
-            ev["mdump"] = ev["dump"]
+            ev["mdump"] = copy.deepcopy(ev["dump"])
         self.last = ev["mdump"]
         self.events.append(ev)
         return ev
@@ -416,10 +423,15 @@ def random_calls(rng, n, compile_p=0.02):
         arg = rng.choice(["none", "badtype"]) if bad else "ok"
         if x < compile_p or 0.5 <= x < 0.58:
             m = rng.choice([1, 1, 2])
+            if bad and x >= compile_p:
+                m = rng.choice([0, 1, 1, 2])
             qs = rng.sample([1, 2, 3], m)
             items = [dict(q=qq, d=rng.choice(toks)) for qq in qs]
-            calls.append(mkcall("Compile" if x < compile_p else "AddObj",
-                                ns, items=items))
+            if x < compile_p:
+                calls.append(mkcall("Compile", ns, items=items))
+            else:
+                calls.append(mkcall("AddObj", ns, items=items,
+                                    arg="badtype" if bad else "ok"))
         elif x < 0.24:
             if bad:
                 calls.append(mkcall("Set", ns, 0, "", arg))
